@@ -69,7 +69,7 @@ type c10Script struct {
 
 type c10CacheEnt struct {
 	Name string `json:"name"`
-	Kind string `json:"kind"` // ok | null | nosecret
+	Kind string `json:"kind"` // ok | null | nosecret | a type-error kind (see c10BadKinds): well-formed JSON that does not decode into the cache type
 	Ver  uint32 `json:"ver,omitempty"`
 	Val  int    `json:"val,omitempty"`
 	Last int64  `json:"last,omitempty"`
@@ -222,6 +222,11 @@ func (c *c10Cache) Write(data []byte) error {
 }
 func (c *c10Cache) Read() ([]byte, error) { return c.data, nil }
 
+// kinds of cache entries that are well-formed JSON but make the decoding of the whole document fail
+var c10BadKinds = []string{"stamp-number", "stamp-text", "value-number", "value-not-base64", "value-object", "version-string",
+	"version-too-big", "version-negative", "version-fraction", "secret-number", "secret-array", "entry-number", "entry-string",
+	"entry-array", "entry-bool"}
+
 func c10CacheJSON(ents []c10CacheEnt) []byte {
 	var sb strings.Builder
 	sb.WriteByte('{')
@@ -232,11 +237,47 @@ func c10CacheJSON(ents []c10CacheEnt) []byte {
 		k, _ := json.Marshal(e.Name)
 		sb.Write(k)
 		sb.WriteByte(':')
+		b64 := base64.StdEncoding.EncodeToString(c10Val(e.Val))
 		switch e.Kind {
 		case "null":
 			sb.WriteString("null")
 		case "nosecret":
 			fmt.Fprintf(&sb, `{"secret":null,"lastAccess":"%d"}`, e.Last)
+		case "ok":
+			fmt.Fprintf(&sb, `{"secret":{"Value":"%s","Version":%d},"lastAccess":"%d"}`,
+				base64.StdEncoding.EncodeToString(c10Val(e.Val)), e.Ver, e.Last)
+		// ---- well-formed JSON, wrong type somewhere: json.Unmarshal reports an error (and leaves
+		// whatever it could decode in the map)
+		case "stamp-number":
+			fmt.Fprintf(&sb, `{"secret":{"Value":"%s","Version":%d},"lastAccess":%d}`, b64, e.Ver, e.Last)
+		case "stamp-text":
+			fmt.Fprintf(&sb, `{"secret":{"Value":"%s","Version":%d},"lastAccess":"yesterday"}`, b64, e.Ver)
+		case "value-number":
+			fmt.Fprintf(&sb, `{"secret":{"Value":12345,"Version":%d},"lastAccess":"%d"}`, e.Ver, e.Last)
+		case "value-not-base64":
+			fmt.Fprintf(&sb, `{"secret":{"Value":"***not base64***","Version":%d},"lastAccess":"%d"}`, e.Ver, e.Last)
+		case "value-object":
+			fmt.Fprintf(&sb, `{"secret":{"Value":{"x":1},"Version":%d},"lastAccess":"%d"}`, e.Ver, e.Last)
+		case "version-string":
+			fmt.Fprintf(&sb, `{"secret":{"Value":"%s","Version":"%d"},"lastAccess":"%d"}`, b64, e.Ver, e.Last)
+		case "version-too-big":
+			fmt.Fprintf(&sb, `{"secret":{"Value":"%s","Version":4294967296},"lastAccess":"%d"}`, b64, e.Last)
+		case "version-negative":
+			fmt.Fprintf(&sb, `{"secret":{"Value":"%s","Version":-1},"lastAccess":"%d"}`, b64, e.Last)
+		case "version-fraction":
+			fmt.Fprintf(&sb, `{"secret":{"Value":"%s","Version":1.5},"lastAccess":"%d"}`, b64, e.Last)
+		case "secret-number":
+			fmt.Fprintf(&sb, `{"secret":7,"lastAccess":"%d"}`, e.Last)
+		case "secret-array":
+			fmt.Fprintf(&sb, `{"secret":[],"lastAccess":"%d"}`, e.Last)
+		case "entry-number":
+			sb.WriteString("7")
+		case "entry-string":
+			sb.WriteString(`"gone"`)
+		case "entry-array":
+			sb.WriteString("[1,2]")
+		case "entry-bool":
+			sb.WriteString("true")
 		default:
 			fmt.Fprintf(&sb, `{"secret":{"Value":"%s","Version":%d},"lastAccess":"%d"}`,
 				base64.StdEncoding.EncodeToString(c10Val(e.Val)), e.Ver, e.Last)
@@ -313,15 +354,16 @@ func c10CoqDocs(ws [][]byte) (string, [][]c10DocEnt) {
 // ---- observation ----
 
 type c10Obs struct {
-	Class   string        `json:"class"` // ok | err | panic
-	T       int64         `json:"t"`
-	T0      int64         `json:"t0"`
-	Reqs    []c10Req      `json:"reqs,omitempty"`
-	Writes  [][]c10DocEnt `json:"writes,omitempty"`
-	PReqs   []c10PReq     `json:"preqs,omitempty"`
-	POK     bool          `json:"pok,omitempty"`
-	PWrites [][]c10DocEnt `json:"pwrites,omitempty"`
-	Vals    map[string]int64 `json:"vals,omitempty"` // -1 = nil handle
+	Class     string           `json:"class"` // ok | err | panic
+	T         int64            `json:"t"`
+	T0        int64            `json:"t0"`
+	Reqs      []c10Req         `json:"reqs,omitempty"`
+	Writes    [][]c10DocEnt    `json:"writes,omitempty"`
+	PReqs     []c10PReq        `json:"preqs,omitempty"`
+	POK       bool             `json:"pok,omitempty"`
+	PWrites   [][]c10DocEnt    `json:"pwrites,omitempty"`
+	Vals      map[string]int64 `json:"vals,omitempty"`       // -1 = nil handle
+	BadHandle string           `json:"bad_handle,omitempty"` // sanity pass: a known name whose handle panics
 }
 
 func c10Declared(in c10Input) []string {
@@ -417,7 +459,7 @@ func c10Scenario(t *testing.T, in c10Input, work string, idx int, probe bool) (o
 		cache = &c10Cache{}
 	case "garbage":
 		cache = &c10Cache{data: []byte(`{"a":{"secret":{"Value":"AAAA","Version":1},"lastAccess":"7"`)}
-	case "doc":
+	case "doc", "typeerr":
 		cache = &c10Cache{data: c10CacheJSON(in.CacheDoc)}
 	}
 	if cache != nil {
@@ -490,6 +532,33 @@ func c10Scenario(t *testing.T, in c10Input, work string, idx int, probe bool) (o
 			}
 			obs.Vals[n] = int64(c10Tok(sec.Get()))
 		}()
+	}
+	if !probe {
+		// sanity pass only: every name the cache document mentioned, if the store knows it, must have a
+		// working handle too (an entry without a secret would make the next poll panic in a goroutine
+		// nobody can recover from)
+		for _, e := range in.CacheDoc {
+			n := e.Name
+			if _, done := obs.Vals[n]; done {
+				continue
+			}
+			var sec setec.Secret
+			func() {
+				defer func() { recover() }() // unknown name with lookups disabled
+				sec = st.Secret(n)
+			}()
+			if sec == nil {
+				continue
+			}
+			func() {
+				defer func() {
+					if r := recover(); r != nil {
+						obs.BadHandle = n
+					}
+				}()
+				sec.Get()
+			}()
+		}
 	}
 	if in.Struct {
 		// the struct fields were populated at construction
@@ -687,6 +756,38 @@ func c10Gen(r *rand.Rand) c10Input {
 		in.Cache = "empty"
 	case k < 7:
 		in.Cache = "garbage"
+	case k < 11:
+		// well-formed JSON with a type error in one entry, after / between / before valid entries:
+		// the decode fails, so the whole cache must be ignored and every declared name fetched
+		in.Cache = "typeerr"
+		var good []c10CacheEnt
+		for _, nm := range declared {
+			if nm != "" && r.IntN(4) != 0 {
+				good = append(good, c10CacheEnt{Name: nm, Kind: "ok", Ver: 1 + uint32(r.IntN(9)), Val: 1 + r.IntN(c10MaxTok), Last: stamp()})
+			}
+		}
+		for _, nm := range c10Pool {
+			if r.IntN(8) == 0 && !contains(declared, nm) {
+				good = append(good, c10CacheEnt{Name: nm, Kind: "ok", Ver: 1 + uint32(r.IntN(9)), Val: 1 + r.IntN(c10MaxTok), Last: stamp()})
+			}
+		}
+		r.Shuffle(len(good), func(i, j int) { good[i], good[j] = good[j], good[i] })
+		bad := c10CacheEnt{Name: "bad", Kind: c10BadKinds[r.IntN(len(c10BadKinds))], Ver: 1 + uint32(r.IntN(9)), Val: 1 + r.IntN(c10MaxTok), Last: stamp()}
+		if len(good) > 0 && r.IntN(2) == 0 { // the damaged entry is one of the declared/cached names themselves
+			j := r.IntN(len(good))
+			bad.Name = good[j].Name
+			good = append(good[:j], good[j+1:]...)
+		} else if len(declared) > 0 && declared[0] != "" && r.IntN(3) == 0 && !c10HasEnt(good, declared[0]) {
+			bad.Name = declared[0]
+		}
+		pos := len(good) // last
+		switch r.IntN(3) {
+		case 0:
+			pos = 0
+		case 1:
+			pos = len(good) / 2
+		}
+		in.CacheDoc = append(append(append([]c10CacheEnt(nil), good[:pos]...), bad), good[pos:]...)
 	default:
 		in.Cache = "doc"
 		mode := r.IntN(10) // 0-3 partial, 4-7 complete, 8-9 invalid
@@ -787,6 +888,15 @@ func c10Gen(r *rand.Rand) c10Input {
 	return in
 }
 
+func c10HasEnt(es []c10CacheEnt, n string) bool {
+	for _, e := range es {
+		if e.Name == n {
+			return true
+		}
+	}
+	return false
+}
+
 func contains(xs []string, x string) bool {
 	for _, y := range xs {
 		if x == y {
@@ -798,6 +908,22 @@ func contains(xs []string, x string) bool {
 
 func c10Tags(in c10Input, obs c10Obs) []string {
 	tags := []string{"client=" + in.Client, "cache=" + in.Cache, "outcome=" + obs.Class}
+	if in.Cache == "typeerr" {
+		for i, e := range in.CacheDoc {
+			if e.Kind != "ok" {
+				pos := "middle"
+				if i == 0 {
+					pos = "first"
+				} else if i == len(in.CacheDoc)-1 {
+					pos = "last"
+				}
+				tags = append(tags, "typeerr="+e.Kind, "typeerr-pos="+pos)
+				if contains(c10Distinct(c10Declared(in)), e.Name) {
+					tags = append(tags, "typeerr-in-declared-name")
+				}
+			}
+		}
+	}
 	if in.DeadlineUs >= 0 {
 		tags = append(tags, "deadline")
 	}
@@ -817,6 +943,47 @@ func c10Tags(in c10Input, obs c10Obs) []string {
 		tags = append(tags, "struct")
 	}
 	return tags
+}
+
+// c10Watchdog: a scenario that takes more than c10WatchdogLimit of REAL time (virtual time costs nothing)
+// hangs; the run is ended with a verdict that carries the input, so that the replay is concrete.
+const c10WatchdogLimit = 40 * time.Second
+
+type c10Watchdog struct {
+	mu    sync.Mutex
+	since time.Time
+	cur   *c10Input
+}
+
+func (w *c10Watchdog) begin(in c10Input) {
+	w.mu.Lock()
+	w.since, w.cur = time.Now(), &in
+	w.mu.Unlock()
+}
+
+func (w *c10Watchdog) end() {
+	w.mu.Lock()
+	w.cur = nil
+	w.mu.Unlock()
+}
+
+func c10StartWatchdog(out *Out) *c10Watchdog {
+	w := &c10Watchdog{}
+	go func() {
+		for {
+			time.Sleep(time.Second)
+			w.mu.Lock()
+			if w.cur != nil && time.Since(w.since) > c10WatchdogLimit {
+				key, _ := json.Marshal(*w.cur)
+				out.Emit(Record{Kind: "newstore", Input: *w.cur, Key: string(key),
+					Direct: &DirectVerdict{OK: false, What: "NewStore (or the probe poll) did not return within 40 s of real time: hang"}})
+				out.Close()
+				os.Exit(0)
+			}
+			w.mu.Unlock()
+		}
+	}()
+	return w
 }
 
 func runC10(o Opts) {
@@ -846,27 +1013,39 @@ func runC10(o Opts) {
 	inTest(func(t *testing.T) {
 		out := NewOut(o.Out)
 		selftests := 0
+		wd := c10StartWatchdog(out)
 		for i, in := range inputs {
 			var obs c10Obs
 			var direct *DirectVerdict
-			bubble(t, func(t *testing.T) { obs, direct = c10Scenario(t, in, work, i, false) })
-			bad := ""
+			wd.begin(in)
+			run := func(probe bool) {
+				// a panic raised by the bubble itself (deadlock: every goroutine blocked for good) is a verdict too
+				defer func() {
+					if r := recover(); r != nil {
+						direct = &DirectVerdict{OK: false, What: fmt.Sprintf("scenario aborted: %v", r)}
+					}
+				}()
+				bubble(t, func(t *testing.T) { obs, direct = c10Scenario(t, in, work, i, probe) })
+			}
+			run(false)
+			bad := obs.BadHandle
 			for _, k := range sortedKeys(obs.Vals) {
 				if obs.Vals[k] == -2 {
 					bad = k
 				}
 			}
 			if direct == nil && bad != "" {
-				direct = &DirectVerdict{OK: false, What: fmt.Sprintf("NewStore succeeded but Secret(%q) or its handle panics: the declared secret has no value", bad)}
+				direct = &DirectVerdict{OK: false, What: fmt.Sprintf("NewStore succeeded but Secret(%q) or its handle panics: the store holds an entry without a value", bad)}
 			} else if direct == nil && obs.Class == "ok" {
-				bubble(t, func(t *testing.T) { obs, direct = c10Scenario(t, in, work, i, true) })
+				run(true)
 			}
+			wd.end()
 			key, _ := json.Marshal(in)
 			rec := Record{Kind: "newstore", Input: in, Obs: obs, Key: string(key), Tags: c10Tags(in, obs), Direct: direct}
 			if direct == nil || obs.Class == "panic" {
 				rec.Coq = c10Coq(in, obs)
 			}
-			rec.Nontrivial = len(obs.Reqs) > 0 || in.Cache == "doc"
+			rec.Nontrivial = len(obs.Reqs) > 0 || in.Cache == "doc" || in.Cache == "typeerr"
 			if i < corpusN {
 				rec.Corpus = fmt.Sprintf("corpus-%d", i)
 			}
